@@ -44,6 +44,10 @@ var zzC08Progs = []string{
 	"a := [1 2]\nm := {k:a}\nv:any\nv = a\nprintf \"%d %t %f %q %x %5s|%v %s\\n\" a m a m v a m a\nprintf \"%d %t %5.2f %q %x %v %s\\n\" 1 true 2 \"s\" 255 v \"t\"\nprint (sprintf \"%d|%f|%e|%g|%c|%U|%p\" a m v a m a m)\n",
 	// 14: string conversion and joining of nested composites
 	"m := {b:[{z:1 y:2}] a:[]}\nprint (sprint m) (sprintf \"%v\" m) (join [1 2] \",\")\ns := sprint [m m]\nprint s (len s)\n",
+	// 15-17: every operation that builds a map from another map: repetition (deep copy), also inside any and nested
+	"row := [{c:1 a:2 b:3}] * 2\nprint row\nfor k := range row[1]\n    print k\nend\nrow[0].z = 0\nprint row\n",
+	"m:any\nm = {c:1 b:2 a:3}\nrep := [m] * 2\nprint rep\ntest rep[0] rep[1]\n",
+	"grid := [[{q:[1] p:[2] o:[3]}]] * 2\nprint grid (grid[0] == grid[1])\nfor k := range grid[1][0]\n    print k grid[1][0][k]\nend\n",
 	// 11: mixed-type map literal inside array, typeof
 	"x := {p:1}\narr := [{a:1 b:\"s\"} {c:x}]\nprint (typeof arr)\n",
 }
@@ -98,5 +102,32 @@ func ZZC08Orders() {
 	}
 	zzAssert(o1.result == o2.result, "C08: the final result does not depend on map iteration order")
 	zzReach("orders-ok")
+	zzWitness("end")
+}
+
+
+// ZZC08Corpus: the program texts of the other evaluator harnesses (alias
+// scenarios, type-soundness programs, inference literals) under every map
+// iteration order against a fixed order.
+func ZZC08Corpus() {
+	var texts []string
+	for _, c := range zzAliases {
+		texts = append(texts, "a := 1\nb := 2\n"+zzC09Funcs+c.src+"print a b\n")
+	}
+	texts = append(texts, zzC02ProgramTexts()...)
+	for _, l := range zzC04InferLiterals() {
+		texts = append(texts, "x := [1]\ny := [\"s\"]\nv := "+l+"\nprint (typeof v) v\nprint x y\n")
+	}
+	src := texts[zzChoice("text", len(texts))]
+	b := builtinsDeclsFromBuiltins(newBuiltins(&zzPlat{}))
+	b.Globals = map[string]*parser.Var{"err": b.Globals["err"], "errmsg": b.Globals["errmsg"]}
+	o1 := zzPipeline(src, b, true)
+	o2 := zzPipeline(src, b, false)
+	if o1 != o2 {
+		zzLog("C08 corpus: outcomes differ for\n" + src + "\n" + o1.errs + o1.trace + o1.result + "\n---\n" + o2.errs + o2.trace + o2.result)
+	}
+	zzAssert(o1.errs == o2.errs && o1.fmted == o2.fmted, "C08 corpus: parse errors and formatted text do not depend on map iteration order")
+	zzAssert(o1.trace == o2.trace && o1.result == o2.result, "C08 corpus: program output and result do not depend on map iteration order")
+	zzReach("corpus-ok")
 	zzWitness("end")
 }
